@@ -14,6 +14,8 @@ def parse_type(c):
         return parts[0]
     rest = [p for p in parts if not (p["k"] == "prim" and p["n"] in ("null", "undefined"))]
     nulls = [p["n"] for p in parts if p["k"] == "prim" and p["n"] in ("null", "undefined")]
+    if not rest and nulls:
+        rest, nulls = [prim(nulls[0])], nulls[1:]      # `undefined | undefined`, `undefined | null`: unit under option(s)
     if len(rest) == 1 and nulls:
         t = rest[0]
         for n in nulls:
